@@ -362,6 +362,7 @@ func c15Replay(e *core.Env, data json.RawMessage) (bool, string) {
 func init() {
 	core.Register(&core.Check{
 		ID: "C15", Level: "model_checking", Run: c15Run, Replay: c15Replay,
+		Added:       "crossed-ties case under all 7! token orders; candidate with multi-byte letters; formatting the result again changes nothing; --inplace compared on a target that certainly shrinks; placeholder on both sides must receive two different accounts; 700-transaction target on the binary with 1, 2, 8, all CPUs + race detector",
 		QuickBudget: 100 * time.Second, ThoroughBudget: 14 * time.Minute,
 		Rule: "training journals: every multiset of <= 3 transactions over 6 templates (two descriptions, ties between candidates, a booking on the placeholder itself, a macro booking) plus empty and comment-only files; target journals: every single and every ordered pair of 6 templates (placeholder on credit, on debit, on both sides, in one of two bookings, absent, other account = a candidate) with comments/headings/irregular spacing; placeholder in {Expenses:TBD, Assets:X}; " +
 			"each run under every map iteration order within 1 (quick, every 4th case) or 2 (thorough, every 2nd case) deviations + 2 global policies; oracle: output parses, bookings other than placeholders untouched, replacement is a training account different from the other account, no candidate => unchanged, all other tokens and the inter-directive text identical to `knut format` of the target, one outcome over all map orders; non-trivial = target contains the placeholder and training has transactions",
